@@ -1058,7 +1058,14 @@ static int cmd_check(const std::string &property, Tier tier, uint64_t verif_seed
 		json_object_set_new(ev, "wall_s", json_real(wall));
 		json_object_set_new(ev, "violations", json_integer((json_int_t)violation_lines.size()));
 		json_t *cov = json_object();
-		json_object_set_new(cov, "evaluations", json_integer((json_int_t)completed));
+		uint64_t evaluations = completed;
+		if (total.counters.count("oom:faulted_executions")) {
+			// fault enumeration: one evaluation = one faulted execution of a scenario
+			evaluations = total.counters["oom:faulted_executions"];
+			json_object_set_new(cov, "scenarios", json_integer((json_int_t)completed));
+			json_object_set_new(cov, "exhaustive_over_allocation_index_per_scenario", json_true());
+		}
+		json_object_set_new(cov, "evaluations", json_integer((json_int_t)evaluations));
 		json_object_set_new(cov, "distinct_nontrivial", json_integer((json_int_t)total.signatures.size()));
 		json_object_set_new(cov, "rule", json_string(cd->rule));
 		json_t *sa = json_array();
@@ -1185,6 +1192,11 @@ int main(int argc, char **argv)
 		return 2;
 	}
 	std::string cmd = argv[1];
+	if (cmd == "probe-provider") {
+		// what a freshly started process selected (the library constructor already ran)
+		printf("%s\n", jwt_get_crypto_ops());
+		return 0;
+	}
 	std::string property, evidence, known = "/verif/known_findings.json", file;
 	Tier tier = QUICK;
 	uint64_t seed = 1, runs = 0, index = 0;
